@@ -23,22 +23,24 @@ Proof.
   - apply filter_In in Hg. tauto.
 Qed.
 
-Lemma fold_kill_wgo_sub : forall obj p gof (casc : list grant -> string -> option (list grant)),
-  (forall G x G', casc G x = Some G' -> wgo_sub G' G) ->
-  forall ds G G', fold_opt (kill_then casc obj p gof) ds G = Some G' -> wgo_sub G' G.
+Lemma fold_visit_wgo_sub : forall obj p gof (casc : list grant -> list string -> string -> option cstate),
+  (forall G V x st, casc G V x = Some st -> wgo_sub (fst st) G) ->
+  forall ds st0 st, fold_opt (visit_then casc obj p gof) ds st0 = Some st -> wgo_sub (fst st) (fst st0).
 Proof.
-  intros obj p gof casc IHc. induction ds as [|d ds IH]; intros G G' H.
+  intros obj p gof casc IHc. induction ds as [|d ds IH]; intros st0 st H.
   - cbn in H. inversion H. apply wgo_sub_refl.
-  - cbn [fold_opt] in H. destruct (kill_then casc obj p gof G d) as [G1|] eqn:E1; [|discriminate].
-    unfold kill_then in E1. apply IHc in E1. apply IH in H.
-    eapply wgo_sub_trans; [exact H|]. eapply wgo_sub_trans; [exact E1 | apply remove_wgo_sub].
+  - cbn [fold_opt] in H. unfold visit_then in H at 1. destruct (mem d (snd st0)).
+    + apply IH. exact H.
+    + destruct (casc (remove_grants obj d p gof (fst st0)) (d :: snd st0) d) as [st1|] eqn:E1; [|discriminate].
+      apply IHc in E1. apply IH in H.
+      eapply wgo_sub_trans; [exact H|]. eapply wgo_sub_trans; [exact E1 | apply remove_wgo_sub].
 Qed.
 
-Lemma cascade_wgo_sub : forall obj p gof fuel G x G',
-  revoke_cascade fuel obj p gof G x = Some G' -> wgo_sub G' G.
+Lemma cascade_wgo_sub : forall obj p gof fuel G V x st,
+  revoke_cascade fuel obj p gof G V x = Some st -> wgo_sub (fst st) G.
 Proof.
-  intros obj p gof. induction fuel as [|f IH]; intros G x G' H; [discriminate|].
-  cbn [revoke_cascade] in H. eapply fold_kill_wgo_sub; [exact IH | exact H].
+  intros obj p gof. induction fuel as [|f IH]; intros G V x st H; [discriminate|].
+  cbn [revoke_cascade] in H. apply (fold_visit_wgo_sub obj p gof _ IH) in H. exact H.
 Qed.
 
 Lemma revoke_fold_wgo_sub : forall fuel obj gof casc prs G G',
@@ -48,8 +50,8 @@ Proof.
   - cbn in H. inversion H. apply wgo_sub_refl.
   - destruct casc; cbn [fold_opt revoke_one] in H.
     + apply IH in H. eapply wgo_sub_trans; [exact H | apply remove_wgo_sub].
-    + destruct (kill_then (revoke_cascade fuel obj p gof) obj p gof G ge) as [G1|] eqn:E1; [|discriminate].
-      unfold kill_then in E1. apply cascade_wgo_sub in E1. apply IH in H.
+    + destruct (revoke_cascade fuel obj p gof (remove_grants obj ge p gof G) [ge] ge) as [st1|] eqn:E1; [|discriminate].
+      apply cascade_wgo_sub in E1. apply IH in H.
       eapply wgo_sub_trans; [exact H|]. eapply wgo_sub_trans; [exact E1 | apply remove_wgo_sub].
     + apply IH in H. eapply wgo_sub_trans; [exact H | apply remove_wgo_sub].
 Qed.
